@@ -193,6 +193,12 @@ def run(ctx: Ctx) -> None:
     rep.rule("C11.R6", "the overlap detector is applied to the map that is committed (all_store_paths of the interactions with the root path attached)")
     _overlap_input(ctx, top, detector)
 
+    # ---- R7: both detections rely on the same local-variable classification ----
+    from . import visitors
+    rep.rule("C11.R7", "names bound by import / def / class are not classified as local variables (calls through them stay visible to both passes); visitors descend everywhere")
+    visitors.only_value_binders(ctx, "C11.R7")
+    visitors.traversal_complete(ctx, "C11.R7")
+
     # ---- R2 / R3 (static) / R5 -----------------------------------------------------------------
     insp = inspectors(ctx)
     n_desc = 0
@@ -355,7 +361,8 @@ def run(ctx: Ctx) -> None:
         if derives:
             ov_outs += [o for o in ov_all if o.ast is a_]
     targets: List[Tuple[str, ast.Call]] = [("user call", c) for c in user_calls(top)]
-    targets += [("store mutation", c) for c in store_calls(ctx, top, STORE_MUT)]
+    from .common import effect_sites
+    targets += [("store mutation", c) for c in effect_sites(ctx, top, STORE_MUT)]
     for kind, t in targets:
         where = top.loc(t)
         for q, cs in acalls.items():
